@@ -261,6 +261,7 @@ def run_p_case(case, fam, seed, count, acc, order, only=None):
         if only is not None:
             return ok, detail
         acc.evaluation(digest(src, qs) if nt else None)
+        acc.observe(qi, ok, detail)
         if not ok:
             acc.fail((order, qi), dict(driver='s_c15', family=fam, seed=seed, count=count, case_id=case.id, qi=qi,
                                        source=src, query=qs), detail, cls='P: ' + _cls(detail))
@@ -477,6 +478,11 @@ def replay(sc):
     case = S.find_case(sc['family'], sc['seed'], sc['count'], sc['case_id'])
     if case is None:
         return False, 'case not found'
+    acc = Acc()         # the queries of a case share one engine: run the whole case, pick the query's outcome
+    acc.watch_key = sc['qi']
+    run_p_case(case, sc['family'], sc['seed'], sc['count'], acc, 0)
+    if acc.watch_result is not None:
+        return acc.watch_result
     return run_p_case(case, sc['family'], sc['seed'], sc['count'], Acc(), 0, only=sc['qi'])
 
 
